@@ -197,7 +197,9 @@ class Machine:
                         if isinstance(f, list) and f and f[0] == Sym("define"):
                             self.do_define(f, env)
                         elif isinstance(f, list) and f and f[0] == Sym("define-syntax"):
-                            continue        # a macro local to the library (the generators never use it): it binds nothing an importer can see
+                            # a macro of the library (the generators never use it as a macro): an opaque binding, visible to importers only if exported
+                            env.vars[f[1].name] = Sym("#<transformer>")
+                            continue
                         else:
                             self.ev(f, env)
             inst = {}
